@@ -152,6 +152,7 @@ type Exec struct {
 	nWitness     int
 	floor        int
 	pathViolated bool
+	inOOBHook    bool
 	strictInit   map[*ssa.Package]bool
 	initSkips    []string
 	funcsSeen    map[string]bool
@@ -587,6 +588,7 @@ func (e *Exec) resetPath() {
 	e.reached = map[string]bool{}
 	e.obs = nil
 	e.pathViolated = false
+	e.inOOBHook = false
 	e.knownRegion = ""
 	e.objSeq = 1 << 20
 	e.workAlloc = e.tb.BVu(0, 64)
